@@ -652,6 +652,30 @@ def run(ctx) -> list[Inst]:
                              f"the included one from the first include on"),
                         file=vm.module.relpath, line=n.lineno, props=props + ('C04',)))
 
+    # (a13) every normal return of compile() hands back what the visitor made of THIS file's parse tree: a shortcut
+    # `return {}` / a cached earlier result for "already compiled" files changes what an include contributes (defines
+    # are applied in textual order, the last one wins - a repeated include re-applies them)
+    construct13 = '(a) compile() returns the visitor\'s result for the file just parsed'
+    for n in own_nodes(f.node):
+        if isinstance(n, ast.Return) and cfg.node_of(n) is not None:
+            v = n.value
+            via_visitor = v is not None and ('visit' in stmt_text(v, 200))
+            if not via_visitor and isinstance(v, ast.Name):
+                via_visitor = any(isinstance(a, ast.Assign) and any(isinstance(t, ast.Name) and t.id == v.id for t in a.targets)
+                                  and 'visit' in stmt_text(a.value, 200) for a in own_nodes(f.node))
+            if via_visitor:
+                insts.append(Inst(RULE, f.short, construct13, 'ok', file=rel, line=n.lineno, props=props + ('C04',)))
+            elif parse_node is not None and not cfg.dominates(parse_node, cfg.node_of(n)):
+                insts.append(Inst(
+                    RULE, f.short, construct13, 'violation',
+                    msg=(f"'{stmt_text(n, 60)}' leaves compile() before the file is parsed, with a value that is not the "
+                         f"visitor's result: the file (an include met a second time, a 'known' file) contributes nothing, "
+                         f"and what it contains is not checked against the grammar on this path"),
+                    file=rel, line=n.lineno, props=props + ('C04',)))
+            else:
+                insts.append(Inst(RULE, f.short, construct13, 'unproven', msg=stmt_text(n, 60), file=rel, line=n.lineno,
+                                  props=props + ('C04',), nontrivial=False))
+
     # (a6) nothing in the package swallows exceptions wholesale: a context manager whose __exit__ returns a truthy
     # value suppresses whatever was raised inside the `with` (also the compile error of an included file)
     nexit = 0
